@@ -3,6 +3,7 @@ From Coq Require Import List Arith ZArith Bool Lia.
 Import ListNotations.
 Require Import MayV.Sync.RwLockModel MayV.Sync.RwLockInv MayV.Sync.RwLockPresG MayV.Sync.RwLockPresA MayV.Sync.RwLockPresOTac.
 Require Import MayV.Sync.RwLockPresO1 MayV.Sync.RwLockPresO2 MayV.Sync.RwLockPresO3 MayV.Sync.RwLockPresO4.
+Require Import MayV.Sync.RwLockPresO1b MayV.Sync.RwLockPresO2b MayV.Sync.RwLockPresO2c MayV.Sync.RwLockPresO3b MayV.Sync.RwLockPresO4b.
 
 Definition actor_of (ac : action) : nat :=
   match ac with Call a _ | Step a | Busy a | Abort a | Drop a | Panic a => a end.
